@@ -5,6 +5,7 @@
   regions starting with `excluded:` — to an exclusion the property text itself makes.
 -/
 import SqlizeModel.Spec.Props
+import SqlizeModel.Impl.Builder
 
 namespace Sqlize.Spec.Scope
 
@@ -173,5 +174,87 @@ def c04 (g : Globals) (revs : List (List Stmt)) : Option String :=
   | .postgres => some "postgres-migrations-not-rereadable"
   | .sqlite => some "sqlite-one-statement-per-call"
   | .mysql => c04Pairs g [] revs
+
+-- ---------------------------------------------------------------------------------------------------------------
+-- struct declarations (C06, C10)
+
+open Builder in
+mutual
+  /-- a non-ignored field without `type:` tag whose Go type has no documented SQL mapping (nil pointer, slices, …) -/
+  def unsupportedField : Field → Bool
+    | .mk _ ty _ tag =>
+      tag != "-" && !((tag.splitOn ";").any (fun it => (snake it).startsWith "type:")) &&
+      (match ty with
+       | .other => true
+       | .ptrNil => true
+       | .struct fs => unsupportedFields fs
+       | _ => false)
+  def unsupportedFields : List Field → Bool
+    | [] => false
+    | f :: rest => unsupportedField f || unsupportedFields rest
+end
+
+open Builder in
+mutual
+  /-- number of columns the declaration yields -/
+  def columnCount : Field → Nat
+    | .mk _ ty _ tag =>
+      if tag == "-" then 0 else
+      match ty with
+      | .struct fs =>
+        if (tag.splitOn ";").any (fun it => let n := snake it; n == "embedded" || n == "squash" || n.startsWith "embedded_prefix:")
+        then columnCounts fs else 1
+      | _ => 1
+  def columnCounts : List Field → Nat
+    | [] => 0
+    | f :: rest => columnCount f + columnCounts rest
+end
+
+/-- in one tag, an index item is written before the `column:` item: the index is created on the field-name column -/
+def indexBeforeColumn (tag : String) : Bool :=
+  let items := (tag.splitOn ";").map Builder.snake
+  let isIdx := fun (n : String) => n == "index" || n == "unique" || n.startsWith "index:" || n.startsWith "unique:" ||
+    n.startsWith "index_type:" || n.startsWith "index_columns:"
+  match items.findIdx? (·.startsWith "column:"), items.findIdx? isIdx with
+  | some c, some i => i < c
+  | _, _ => false
+
+open Builder in
+mutual
+  def anyTag (p : String → Bool) : Field → Bool
+    | .mk _ ty _ tag => (tag != "-" && p tag) || (match ty with | .struct fs => anyTags p fs | _ => false)
+  def anyTags (p : String → Bool) : List Field → Bool
+    | [] => false
+    | f :: rest => anyTag p f || anyTags p rest
+end
+
+open Builder in
+mutual
+  /-- a `previous` column name inside a struct embedded with a prefix: the RENAME statement is printed without the prefix -/
+  def prefixedPrevious (prefixed : Bool) : Field → Bool
+    | .mk _ ty _ tag =>
+      tag != "-" && ((prefixed && (tag.splitOn ",previous:").length > 1) ||
+      (match ty with
+       | .struct fs =>
+         let items := (tag.splitOn ";").map snake
+         if items.any (·.startsWith "embedded_prefix:") then prefixedPreviousL true fs
+         else if items.any (fun n => n == "embedded" || n == "squash") then prefixedPreviousL prefixed fs
+         else false
+       | _ => false))
+  def prefixedPreviousL (prefixed : Bool) : List Field → Bool
+    | [] => false
+    | f :: rest => prefixedPrevious prefixed f || prefixedPreviousL prefixed rest
+end
+
+def c06 (g : Globals) (d : Builder.Decl) : Option String :=
+  if unsupportedFields d.fields then some "excluded:unsupported-go-type"
+  else if columnCounts d.fields == 0 then some "excluded:no-columns"
+  else if prefixedPreviousL false d.fields then some "previous-name-in-prefixed-embedded-struct"
+  else if anyTags indexBeforeColumn d.fields then some "index-tag-before-column-tag"
+  else if anyTags (fun t => ((toUpperAscii t).splitOn "PRIMARY KEY").length > 1) d.fields then some "comment-contains-primary-key"
+  else match g.dialect with
+    | .mysql => none
+    | .postgres => some "postgres-builder-output"
+    | .sqlite => some "sqlite-builder-output"
 
 end Sqlize.Spec.Scope
